@@ -155,6 +155,26 @@ def check_fpsize(res, facts):
     same_len = bool(szc) and bool(rd) and all(op_local(t["args"][-1]) is not None and szc[0] in depr.slice([op_local(t["args"][-1])]) for t in rd)
     flag_idx = bool(idx) and all(op_local(t["args"][1]) is not None and szc[0] in depr.slice([op_local(t["args"][1])]) and any(s.get("r", {}).get("k") == "bin" and s["r"]["op"].startswith("Sub") and place_parts(s["d"])[0] in depr.slice([op_local(t["args"][1])]) for _, _, s in r.stmts()) for t in idx)
     rem = any(t["f"].get("name") == "from_u8_remove_flags" for _, t in r.calls())
+    # uniqueness: the integer handed to the range check is the buffer content with only the flag bits removed --
+    # no further masking / shifting of the decoded integer (that would silently accept stray high bits)
+    fb = [t for bb, t in r.calls() if t["f"].get("name") == "from_bigint"]
+    tampered = []
+    if fb and fb[0]["args"]:
+        sl = depr.slice([op_local(fb[0]["args"][0])]) if op_local(fb[0]["args"][0]) is not None else set()
+        for bi, si, st2 in r.stmts():
+            rr = st2.get("r")
+            if rr and rr["k"] == "bin" and rr["op"] in ("BitAnd", "BitOr", "BitXor", "Shl", "Shr", "ShlUnchecked", "ShrUnchecked") and place_parts(st2["d"])[0] in sl:
+                tampered.append(rr["op"])
+        for bb, t in r.calls():
+            if t["f"].get("name") in ("bitand_assign", "bitor_assign", "shr_assign", "shl_assign", "bitand", "shr", "shl") and t["args"] and op_local(t["args"][0]) is not None and (depr.slice([op_local(t["args"][0])]) & sl):
+                tampered.append(t["f"]["name"])
+    kk = "ark_ff|Fp::deserialize_with_flags|unique"
+    if not fb:
+        rule.bad(kk, "no from_bigint range check", r.loc)
+    elif tampered:
+        rule.bad(kk, "the decoded integer is masked/shifted (%s) before the range check: stray bits between the modulus' top bit and the flag bits are silently cleared, so non-canonical byte strings decode (encoding no longer unique)" % sorted(set(tampered)), r.loc)
+    else:
+        rule.ok(kk, "buffer -> to_bigint -> from_bigint with only the flag bits removed", r.loc)
     (rule.ok if same_len and flag_idx and rem else rule.bad)("ark_ff|Fp::deserialize_with_flags", "reads exactly the advertised size, removes flags from byte size-1 (length ok=%s, index ok=%s, remove ok=%s)" % (same_len, flag_idx, rem), r.loc)
 
 
